@@ -23,8 +23,16 @@
 /* per-context state: a well-formed queue of depth >= 1 (NNG_OPT_RECVBUF is
  * 1..8192), its oldest message a real message; STABLE STATE: receivers wait
  * only while the queue is empty */
+/* queue embedded in a harness-built object: the harness points lmq_msgs at the
+ * inline two-slot buffer; for the heap case is_fresh re-points it (same states
+ * as LMQ_INNER_PRE of modules/lmq/spec.h) */
+#define SUB_LMQ_PRE(q)                                                     \
+	((((q)->lmq_alloc == 0 && (q)->lmq_msgs == &(q)->lmq_buf[0]) ||        \
+	     ((q)->lmq_alloc != 0 && (q)->lmq_alloc <= LMQ_MAXALLOC &&         \
+	         __CPROVER_is_fresh((q)->lmq_msgs, (q)->lmq_alloc * sizeof(nng_msg *)))) && \
+	    LMQ_WF_SCALAR(q))
 #define SUB_CTX_PRE(c, Q)                                                  \
-	(LMQ_INNER_PRE(&(c)->lmq) && (c)->lmq.lmq_cap >= 1 &&                  \
+	(SUB_LMQ_PRE(&(c)->lmq) && (c)->lmq.lmq_cap >= 1 &&                    \
 	    ((Q).n == 0 || (c)->lmq.lmq_len == 0) &&                           \
 	    ((c)->lmq.lmq_len == 0 || SUB_QUEUED_MSG(LMQ_VIEW(&(c)->lmq, 0))))
 #define SUB_FULL_OLD(c) (OLD((c)->lmq.lmq_len) >= (c)->lmq.lmq_cap)
